@@ -202,6 +202,14 @@ def planted(kind, a, b, c):
         g = add("g", [["load", "/n0"], ["ext", 1]], params=[["x", M.NO]])
         body = [first, ["keep", "/n1", g, "bare", [["loc", 0, "pos"]]]]
         root = add("root", body, data="/top" if wrap else None)
+    elif kind == "defaultwrapper":
+        # a plain call WITHOUT arguments to a wrapper whose parameter(s) keep their default values and that keeps a path, after earlier keeps:
+        # nothing here has a run-time argument, so no call-order edge may appear
+        d0 = add("d0", [["ext", 0]], data="/n0")
+        g = add("g", [["ext", 1]])
+        hp = add("hp", [["keep", "/n1", g, "bare", []]], params=[["x", 2]] + ([["y", 0]] if b else []))
+        body = [["call", d0, "bare", []]] + ([["keep", "/n2", g, "bare", []]] if a else []) + [["call", hp, "bare", [["omit"]] + ([["omit"]] if b else [])]]
+        root = add("root", body, data="/top" if c else None)
     elif kind == "helperchain":
         # a kept function reaches its keeps through `b` plain helpers; in the innermost one a keep without arguments is followed by
         # `a` keeps with run-time arguments
@@ -238,6 +246,8 @@ def case_strategy(opts):
         if sel == 9:
             return {"planted": ["chain", draw(st.integers(1, 4)), draw(st.integers(0, 4)), draw(st.booleans())]}
         if sel == 8:
+            if draw(st.integers(0, 3)) == 0:
+                return {"planted": ["defaultwrapper", draw(st.integers(0, 1)), draw(st.integers(0, 1)), draw(st.booleans())]}
             if draw(st.integers(0, 2)) == 0:
                 return {"planted": ["loadsibling", draw(st.integers(0, 1)), 0, draw(st.booleans())]}
             if draw(st.booleans()):
